@@ -5,6 +5,7 @@ import H2V.Lemmas.ConnCountsPRecv
 -/
 namespace H2V.Lemmas.ConnCountsP
 open H2V H2V.Model H2V.Model.Conn
+variable {ρ : Bool}
 attribute [local irreducible] wrapSubU32 wrapSubUsize
 
 -- ===================================================================== C19: transition_after
